@@ -194,6 +194,8 @@ pub enum BodyPlan {
     ToEof { buf: usize },
     /// one read per size, then continue with `buf`-sized reads until Ok(0) or an error
     Mixed { sizes: Vec<usize>, buf: usize },
+    /// read exactly this many bytes (or to the end if the body is shorter), in 4096-byte reads
+    Exactly(usize),
 }
 
 #[derive(Clone, Debug, Serialize, Deserialize, PartialEq)]
